@@ -323,11 +323,13 @@ pub(crate) fn add_str_format_replace<W, R, T>(
 
             let mut ret = FencedString::default();
             let mut prev_end = 0;
-            for m in RE.find_iter(pat.as_str()) {
-                let end = m.start();
-                ret.push(&pat.substring(prev_end, Some(end)));
+            // the regex positions are byte offsets into the template text, so slice the text (not the
+            // character-indexed FencedString) with them
+            let text = pat.as_str();
+            for m in RE.find_iter(text) {
+                ret.push(&FencedString::from_str(&text[prev_end..m.start()]));
                 let substr = ManagedXValue::new(
-                    XValue::String(Box::new(pat.substring(m.start() + 1, Some(m.end())))),
+                    XValue::String(Box::new(FencedString::from_str(&m.as_str()[1..]))),
                     rt.clone(),
                 )?;
                 let replacement = xraise!(ns
@@ -335,9 +337,9 @@ pub(crate) fn add_str_format_replace<W, R, T>(
                     .unwrap_value());
                 let repl_str = to_primitive!(replacement, String);
                 ret.push(repl_str.as_ref());
-                prev_end = end + 2;
+                prev_end = m.end();
             }
-            ret.push(&pat.substring(prev_end, None));
+            ret.push(&FencedString::from_str(&text[prev_end..]));
             Ok(ManagedXValue::new(XValue::String(Box::new(ret)), rt)?.into())
         }),
     )
